@@ -235,6 +235,16 @@ class BodyInfo:
                     o.via_clone = True
                 o.via.append((bb, p))
                 return o
+            # `x?`: the Continue payload of Try::branch(x) is the Some / Ok payload of x
+            if p == "std::ops::Try::branch" and t.args and len(path) >= 2 and path[0] == ("v", "Continue") and path[1][0] == "f":
+                aty = self.body.operand_ty(t.args[0]) or ""
+                var = "Some" if aty.startswith("std::option::Option<") else ("Ok" if aty.startswith("std::result::Result<") else None)
+                if var is not None:
+                    owner = "std::option::Option::Some" if var == "Some" else "std::result::Result::Ok"
+                    np = [("v", var), ("f", "0", owner)] + list(path[2:])
+                    o = self.trace(t.args[0], through_clone, _depth + 1, tuple(np), transparent)
+                    o.via.append((bb, p))
+                    return o
         if t.k == "call":
             return Origin("call", bb, path)
         return Origin("local", local, path)
